@@ -646,11 +646,21 @@ class PropBase:
                     self.known_lines.append('KNOWN-FINDING: property=%s %s' % (pid, f.get('what', f.get('key'))))
             except Exception as e:
                 self.notes.append('replay of known finding %s failed: %r' % (f.get('key'), e))
-        if self.breaks:
+        if self.breaks or self.fallback:
+            # with the translator tie replaced by the correspondence alone, the failing-input search (which explores
+            # scenarios beyond the correspondence streams and evaluates the statement on the implementation's own
+            # outputs) is always run; anything it finds that is not a recorded finding is a violation
             try:
                 self.search()
             except Exception as e:
                 self.notes.append('search raised %r' % (e,))
+            if self.fallback and not self.breaks:
+                new = [w for w in self.witnesses if not any(self.matches(f, w) for f in findings)]
+                if new:
+                    self.breaks.append(('specification', 'the failing-input search (run because the translator tie was '
+                                        'replaced by the correspondence check) found %d input(s) on which the '
+                                        'implementation violates the statement; first: %s'
+                                        % (len(new), str(new[0].get('what'))[:600])))
         return self.finish(findings)
 
     def finish(self, findings):
